@@ -9,11 +9,15 @@
      C06_headers      needs_header = pageby_header || first page, for every page the strategies build;
      C06_geometry     every page-break block restates exactly the \paperw \paperh \marg* \headery
                       \footery numbers of the document start, = twip of the configured inches.
+     C06_pages        (Proofs/PartitionProofs.v) for EVERY section with at least one row, the pages the model's
+                      pagination builds are numbered 1..n, every page knows the total n, and exactly the first
+                      page is flagged first and exactly the last page flagged last - the facts the placement
+                      rule (C06_rule) and the page-break block (C06_order) are driven by.
    \header / \footer are emitted once by construction of Document.preamble (checked on the output by
    check_c06 clause 7).  Figure documents: placement by Document.figure_pages (same `placed` rule). *)
 From Coq Require Import Ascii String.
 From Coq Require Import List NArith ZArith QArith Bool Arith.
-From V Require Import Str Num Tok Items Doc Encode Paginate Pipeline Document Checks PlacementProofs.
+From V Require Import Str Num Tok Items Doc Encode Paginate Pipeline Document Checks PlacementProofs PartitionProofs.
 Import ListNotations.
 Local Open Scope string_scope.
 Local Open Scope list_scope.
@@ -31,6 +35,13 @@ Theorem C06_order : forall ctx s pf cw rows pattrs p its,
     /\ (tt_shown (s_source s) (p_source (s_page s)) p = false -> src = []).
 Proof. exact render_page_order. Qed.
 Print Assumptions C06_order.
+
+Theorem C06_pages : forall s pattrs rem cw pages,
+  paginate s pattrs rem cw = Ok pages -> f_rows (s_frame s) <> [] ->
+  exists n, page_nums pages = zrange 1 (S n) /\ length pages = S n /\ Forall (flags_ok (Z.of_nat (S n))) pages /\
+            (forall i p, nth_error pages i = Some p -> pc_first p = Nat.eqb i 0 /\ pc_last p = Nat.eqb (S i) (length pages)).
+Proof. exact paginate_numbering. Qed.
+Print Assumptions C06_pages.
 
 Theorem C06_rule : forall loc p, valid_loc loc -> should_show loc p = placement loc (pc_first p) (pc_last p).
 Proof. exact should_show_placement. Qed.
